@@ -48,6 +48,10 @@ def run(ctx):
              "positions reordered at the hand-off", floor=2)
     run.rule("C14.R7", "extended loader iff overrides; extended child "
              "matcher keeps name rules and the handler list", floor=3)
+    run.rule("C14.R9", "a line for an overridden key is dropped, not judged: "
+             "nothing the parser does with a key/value line before handing "
+             "it to the section (where the override test is made) can reject "
+             "the load, apart from the test that it is a key/value line")
     run.rule("C14.R8", "the section type an override path descends into is "
              "the one the loader resolved against its current schema: no "
              "load-phase lookup in the schema's type table / component "
@@ -214,7 +218,79 @@ def run(ctx):
                "built from the base child matcher (name rules kept), same "
                "handler list")
 
+    _r9_before_suppression(ctx)
+
     # R8: a path component may address a section whose type a %import
     # contributed; the bag must not consult the pre-import schema for it
     from rules import stale
     stale.check(ctx, "C14.R8")
+
+
+def _r9_before_suppression(ctx):
+    """C14.R9: 'every line for that key is dropped'.  Whether a line is
+    dropped is decided inside <section>.addValue (the overriding matcher tests
+    the converted key against the option bag); whatever the parser does with
+    the line *before* that hand-over and that can reject the load is applied
+    to lines that an override removes as well.  Allowed before the hand-over:
+    the parser's own error() for a line that is no key/value line at all.
+    Decided on the CFG of handle_key_value with the escape sets of the
+    callees."""
+    from zcstatic import cfg as C
+    run, m, P = ctx.run, ctx.model, ctx.program
+    PCq = "ZConfig.cfgparser.ZConfigParser"
+    fn = m.lookup_method(PCq, "handle_key_value")
+    if fn is None:
+        raise AnalysisError("anchor vanished: %s.handle_key_value" % PCq)
+    ef = ctx.excflow
+    g = C.build(fn)
+    hand = [n for n in g.live_nodes() if n.ast is not None
+            and n.kind == "stmt" and any(
+                isinstance(x, ast.Call) and isinstance(x.func, ast.Attribute)
+                and x.func.attr == "addValue" for x in ast.walk(n.ast))]
+    if not hand:
+        raise AnalysisError("anchor vanished: no <section>.addValue(...) in "
+                            "%s" % fn.qualname)
+    before = set()
+    for h in hand:
+        # nodes from which the hand-over is reachable
+        for n in g.live_nodes():
+            if n is not h and h.id in g.reach_from(n):
+                before.add(n.id)
+    n_sites = 0
+    for n in g.live_nodes():
+        if n.id not in before or n.ast is None or n.kind not in ("stmt",
+                                                                  "test"):
+            continue
+        for call in ast.walk(n.ast):
+            if not isinstance(call, ast.Call):
+                continue
+            cs = P.resolve_call(fn, call)
+            repo = [c for c in cs if c.kind == "repo"]
+            if not repo:
+                continue
+            if all(ef.is_noreturn(c.fn) for c in repo):
+                continue     # the parser's own error(): the line's shape
+            classes = set()
+            for c in repo:
+                rc = PCq if c.fn.cls is not None and m.is_subclass(
+                    PCq, c.fn.cls.qualname) else None
+                for k in ef.escapes(c.fn, rc):
+                    if ef.is_sub(k[0], "ZConfig.ConfigurationError"):
+                        classes.add(k[0].rsplit(".", 1)[-1])
+            if not classes:
+                continue
+            n_sites += 1
+            run.fail("C14.R9", fn.qualname, src(call),
+                     "%s can reject the load (%s) before the line is handed "
+                     "to the section, where an override for its key would "
+                     "drop it: a line that an override removes is still "
+                     "subject to this check" % (src(call),
+                                                ", ".join(sorted(classes))),
+                     loc=m.loc(fn, call),
+                     witness={"call": src(call), "raises": sorted(classes),
+                              "hand_over": src(hand[0].ast)[:80]})
+    if not n_sites:
+        run.ok("C14.R9", fn.qualname, "nothing rejects a line before the "
+               "hand-over", "no call between the line's shape test and "
+               "<section>.addValue can raise a configuration error",
+               loc=m.loc(fn, fn.node))
